@@ -11,6 +11,18 @@ TRUST = ('TLC/SANY (and Apalache where named), the JSON bridge between TLC and t
          'guards the bridge. ')
 
 CHECKS = {
+    'C15': dict(
+        technique='byte-level TLA+ model (spec/Eui64.tla: MAC = 6 bytes, address = 16 bytes, FlipUL, Eui64, NetPart masking, MacOf) with FlipInvolution / RoundTrip / NetworkKept / MarkerInserted checked by TLC on every (prefix, length, MAC) of the bounded family; decision tables for error classes, parse_host_port/escape_ipv6 and urlsplit/params; every case rendered to text and compared as integers / component-wise, urllib.parse as second oracle',
+        category='model_checking',
+        text='The modified EUI-64 construction is specified on byte sequences (no 128-bit arithmetic in TLC) and its algebra - the '
+             'inverse recovers the MAC, the network part is the prefix masked to its length, ff:fe is inserted, the U/L flip is an '
+             'involution - is checked by TLC for 6 prefixes x 12 lengths x 243 boundary-pattern MACs; the harness renders prefix and '
+             'MAC in several spellings and compares get_ipv6_addr_by_EUI64 / get_mac_addr_by_ipv6 with the model, then repeats the '
+             'round trip on random 48-bit MACs and prefixes. Error classes (IPv4 prefix, malformed, non-string), host:port round '
+             'trips for seven host kinds, and 19k URLs (scheme, userinfo, IPv6 literals, ports, paths, six query shapes, fragments, '
+             'allow_fragments) are TLA+ tables replayed against the code and urllib.parse.',
+        design_ref='6/C15',
+        note=TRUST + 'Prefixes longer than /64 or with bits in the interface half, and IPv4 networks as prefix, are outside the statement.'),
     'C12': dict(
         technique='TLA+ state machine of the overridable clock (spec/TimeOverride.tla: instants as <<day, second, microsecond>> triples with carry arithmetic; SetOverride / Clear / AdvanceDelta / AdvanceSeconds / UtcNow / UtcNowTs) model-checked with TLC and every edge of the bounded graph executed on timeutils and TimeFixture; comparison / normalisation cases (now x relative t x offset x form x threshold incl. exact boundary) enumerated by TLC with NormalizeRight and BoundaryStrict; recorded clock traces validated by Trace_TimeOverride',
         category='model_checking',
